@@ -483,6 +483,12 @@ class Gen:
         arr = [F(nm, u(2), [('r', 8 * k, 8 * k + 1)], count=2, stride=4) for k, nm in enumerate(['f', 'value', 'index', 'temp', 'result', 'mask'])]
         self.add({'kind': 'bitfield', 'name': self.name('S'), 'base': 64, 'default': {'form': 'lit', 'value': 5}, 'fields': arr}, 'F8', 'accept',
                  ['hygiene', 'array-field-names'])
+        # `#[doc(hidden)]` and `#[doc = ..]` are doc attributes like any other: passed through, and the field still shows in Debug
+        self.add({'kind': 'bitfield', 'name': self.name('S'), 'base': 16, 'doc': True, 'debug': True,
+                  'fields': [dict(F('a', u(8), [('r', 0, 7)]), doc=True, doc_text='#[doc(hidden)]'),
+                             dict(F('b', {'k': 'bool'}, [('s', 8)]), doc=True, doc_text='#[doc = "the hidden flag"]'),
+                             dict(F('c', u(7), [('r', 9, 15)]), doc=True, doc_after=True, doc_text='#[doc(hidden)]')]},
+                 'F8', 'accept', ['doc-hidden'])
         # documentation written after the bit attribute
         dd = {'kind': 'bitfield', 'name': self.name('S'), 'base': 16, 'doc': True,
               'fields': [dict(F('a', u(8), [('r', 0, 7)]), doc=True, doc_after=True),
